@@ -276,7 +276,8 @@ struct Gen {
     size_t lapidx = 0; if (g.chance(0.45)) { seek_op("_lap", false); mark(); lapidx = opidx.back(); }
     if (g.chance(0.2)) { op("halfrate").set("flag", (int64_t)g.below(2)); mark(); op("halfrate").set("flag", 0); }
     if (g.chance(0.2)) { op("tells"); mark(); }
-    size_t xlidx = 0; if (g.chance(0.12)) { Rec &r = op("crosslap"); r.set("a", pick_pos()); if (g.chance(0.3)) r.set("hrb", (int64_t)g.below(2)); mark(); xlidx = opidx.back(); }   // ov_crosslap: lap data collected from the first handle while its source fails
+    size_t xlidx = 0; if (g.chance(0.14)) { Rec &r = op("crosslap"); r.set("a", pick_pos()); if (g.chance(0.3)) r.set("hrb", (int64_t)g.below(2)); mark(); xlidx = opidx.back();
+      if (g.chance(0.5)) { static const char *bk[] = {"EIO", "EIO", "EOF0", "SEEKFAIL", "SHORT1"}; r.set("bfault", fmt("%s@%d%s", bk[g.below(5)], (int)g.below(14), g.chance(0.7) ? ":p" : "")); } }   // ov_crosslap: lap data collected from the first handle while its source fails
     // fault: kind x callback ordinal x persistence (the per-scenario enumeration over ordinals is done by the driver via fault=... rewriting)
     size_t target = opidx[g.below(opidx.size())]; if (lapidx && g.chance(0.4)) target = lapidx; if (xlidx && g.chance(0.5)) target = xlidx;   // the lapped seeks embed a seek and a priming read: two places for a failure to be swallowed
     static const char *kinds[] = {"EIO", "EOF0", "SHORT1", "SEEKFAIL", "TELLFAIL"};
